@@ -314,6 +314,43 @@ PROPS.update({
 })
 
 
+def xml_hist(req, I):
+    t = req.split()
+    keys = ['kind.dir%s.multi%s.loops%s' % tuple(t[1:4])]
+    r = I.get('rnodes', '')
+    keys.append('read.' + (r if r.startswith('E') else 'ok'))
+    return keys
+
+
+PROPS.update({
+    'C14': dict(
+        gens=[('xml', 'roundtrip', 1500, 25000, 6)],
+        spec_fields=[r'rnodes', r'redges', r'rdir'], model_fields=[r'rnodes', r'redges', r'rdir', r'agree\.doc'],
+        impl_checks=[('filesame', '1')],
+        nontrivial=lambda req, I: I.get('redges', '.') not in ('.', '') and not I.get('redges', '').startswith('E'),
+        hist=xml_hist,
+        rule='random graphs of all 8 kinds (0..6 nodes) over string names built from XML-special characters, spaces, entity-looking text, '
+             'non-ASCII and astral characters, the empty string and the words the reader looks for; weights: signed zero, subnormals, '
+             '1.797e308, +-inf, random bit patterns, 25% unweighted; write_graphml_string + write_graphml_file, then read_graphml_string with '
+             'the same specs; non-trivial = at least one edge read back',
+        assumptions=COMMON_ASSUME[:2] + ['quick-xml (tokenizer, writer, escaping) and f64 Display/parse are library code: the model starts from '
+                                         "quick-xml's event stream of the written document and from the parse result of each weight text"],
+    ),
+    'C19': dict(
+        gens=[('xml', 'malformed', 4000, 60000, 0)],
+        spec_fields=[r'rnodes', r'rends', r'rdir'], model_fields=[r'rnodes', r'redges', r'rdir'], require_spec_fields=False,
+        nontrivial=lambda req, I: True,
+        hist=xml_hist,
+        rule='hand-written well-formed GraphML documents (keys with other ids, node data, empty and start/end edge elements, weights) with 0-3 '
+             'point mutations each: byte deletion, duplication, truncation, byte replacement by a markup character, insertion of one of 30 '
+             'hostile snippets (duplicate attributes, unknown entities, keys without for/id, non-numeric / padded / empty weights, empty '
+             '<graph/>, unknown edgedefault, stray end tags, CDATA, nested markup in data), line deletion; all 96 GraphSpecs; every call under '
+             'catch_unwind and a 5 s watchdog; every case counts as non-trivial',
+        assumptions=COMMON_ASSUME[:2] + ['quick-xml itself (that it neither panics nor loops on arbitrary strings) is exercised but not modelled'],
+    ),
+})
+
+
 def run_translator(ctx, name):
     import extract
     return extract.run(ctx, name)
